@@ -65,6 +65,7 @@ fixed("F63", "C14", "59084d1", "C14.skipped-trivia|skip|print_grouped_list|Comma
 fixed("F63", "C14", "59084d1", "C14.skipped-trivia|skip|print_block_expr|BlockEnd", "`fn dsp(){ .. } // end`: the block printer writes `}` itself and dropped its leading and trailing comments (findings/repro/F64_*.mmm)")
 for _k in ("BlockBegin", "BlockEnd", "Comma"):
     fixed("F63", "C14", "59084d1", "C14.skipped-trivia|skip|print_use_target_multiple|" + _k, "`use m::{ /* first */ a, /* second */ b}`: braces and commas of a use list are written by the printer, their comments were dropped (findings/repro/F65_*.mmm)")
+fixed("F73", "C14", "84f0656", "C14.token-glue|delimiters|print_lambda_expr|LambdaArgBeginEnd", "`let f = | | { 1.0 }`: the lambda printer writes `|` for both ends of the parameter list and nothing in between when the list is empty; `||` is the or-operator, the output does not parse (formatting it again gives an empty file). 27 of the repository's 249 .mmm files were affected (findings/repro/F73_*.mmm)")
 fixed("F62", "C14", "266b19c", "C14.list-items|lone-comma|print_grouped_list", "`let t = (1.0,)  let (a,) = t`: print_grouped_list swallows the commas and writes items-1 separators back, so the comma that makes a one-element list a tuple was lost: `(1.0)` / `let (a) = t` parse to a different tree (findings/repro/F62_fmt_single_element_tuple.mmm); it now keeps a lone comma")
 for _p in ("C04", "C03"):
     fixed("F61", _p, "8f445b5", "C04.rewrite-complete|identity-default|convert_recursively|ImcompleteRecord", "`fn f(a:float = 1.0, b:float = 2.0){ a + b }  fn dsp(){ let x = 3.0  f({a = (x + 1.0), ..}) }`: convert_recursively had no arm for Expr::ImcompleteRecord and its catch-all hands the node back unchanged, so no pronoun pass ever visited the fields: the BinOp survived convert_operators and recursecheck panicked (both back ends, a valid program); findings/repro/F61_incomplete_record_operator.mmm")
@@ -122,13 +123,13 @@ add("F20", ["C10"], "C10.binders|binder|code_lam_finish_defaults_typed|compiler:
 add("F20", ["C10"], "C10.binders|binder|code_feed|compiler::translate_staging::translate_code", "binders in quoted code keep their source names (code_feed): a macro body's `let x` captures the user's `x` (200.0 instead of 101.0 after renaming; findings/repro/h1.mmm, h2.mmm)")
 
 # ---- C14 ----
-add("F11", ["C14"], "C14.dispatch|leaf|MatchExpr", "mimium-fmt prints MatchExpr nodes by bare token concatenation: `match s {` becomes `matchs{`, `type Shape = ..` becomes `typeShape=..` (findings/repro/f1.mmm); the output does not parse back to the same program")
-add("F11", ["C14"], "C14.dispatch|leaf|MatchArm", "mimium-fmt prints MatchArm nodes by bare token concatenation: `match s {` becomes `matchs{`, `type Shape = ..` becomes `typeShape=..` (findings/repro/f1.mmm); the output does not parse back to the same program")
-add("F11", ["C14"], "C14.dispatch|leaf|MatchArmList", "mimium-fmt prints MatchArmList nodes by bare token concatenation: `match s {` becomes `matchs{`, `type Shape = ..` becomes `typeShape=..` (findings/repro/f1.mmm); the output does not parse back to the same program")
-add("F11", ["C14"], "C14.dispatch|leaf|MatchPattern", "mimium-fmt prints MatchPattern nodes by bare token concatenation: `match s {` becomes `matchs{`, `type Shape = ..` becomes `typeShape=..` (findings/repro/f1.mmm); the output does not parse back to the same program")
-add("F11", ["C14"], "C14.dispatch|leaf|ConstructorPattern", "mimium-fmt prints ConstructorPattern nodes by bare token concatenation: `match s {` becomes `matchs{`, `type Shape = ..` becomes `typeShape=..` (findings/repro/f1.mmm); the output does not parse back to the same program")
-add("F11", ["C14"], "C14.dispatch|leaf|TypeDecl", "mimium-fmt prints TypeDecl nodes by bare token concatenation: `match s {` becomes `matchs{`, `type Shape = ..` becomes `typeShape=..` (findings/repro/f1.mmm); the output does not parse back to the same program")
-add("F11", ["C14"], "C14.dispatch|leaf|VariantDef", "mimium-fmt prints VariantDef nodes by bare token concatenation: `match s {` becomes `matchs{`, `type Shape = ..` becomes `typeShape=..` (findings/repro/f1.mmm); the output does not parse back to the same program")
+fixed("F11", "C14", "4f8203a", "C14.dispatch|leaf|MatchExpr", "mimium-fmt prints MatchExpr nodes by bare token concatenation: `match s {` becomes `matchs{`, `type Shape = ..` becomes `typeShape=..` (findings/repro/f1.mmm); the output does not parse back to the same program")
+fixed("F11", "C14", "4f8203a", "C14.dispatch|leaf|MatchArm", "mimium-fmt prints MatchArm nodes by bare token concatenation: `match s {` becomes `matchs{`, `type Shape = ..` becomes `typeShape=..` (findings/repro/f1.mmm); the output does not parse back to the same program")
+fixed("F11", "C14", "4f8203a", "C14.dispatch|leaf|MatchArmList", "mimium-fmt prints MatchArmList nodes by bare token concatenation: `match s {` becomes `matchs{`, `type Shape = ..` becomes `typeShape=..` (findings/repro/f1.mmm); the output does not parse back to the same program")
+fixed("F11", "C14", "4f8203a", "C14.dispatch|leaf|MatchPattern", "mimium-fmt prints MatchPattern nodes by bare token concatenation: `match s {` becomes `matchs{`, `type Shape = ..` becomes `typeShape=..` (findings/repro/f1.mmm); the output does not parse back to the same program")
+fixed("F11", "C14", "4f8203a", "C14.dispatch|leaf|ConstructorPattern", "mimium-fmt prints ConstructorPattern nodes by bare token concatenation: `match s {` becomes `matchs{`, `type Shape = ..` becomes `typeShape=..` (findings/repro/f1.mmm); the output does not parse back to the same program")
+fixed("F11", "C14", "4f8203a", "C14.dispatch|leaf|TypeDecl", "mimium-fmt prints TypeDecl nodes by bare token concatenation: `match s {` becomes `matchs{`, `type Shape = ..` becomes `typeShape=..` (findings/repro/f1.mmm); the output does not parse back to the same program")
+fixed("F11", "C14", "4f8203a", "C14.dispatch|leaf|VariantDef", "mimium-fmt prints VariantDef nodes by bare token concatenation: `match s {` becomes `matchs{`, `type Shape = ..` becomes `typeShape=..` (findings/repro/f1.mmm); the output does not parse back to the same program")
 
 # ---- C19 -------------------------------------------------------------------------------------------------
 add("F15", ["C19"], "C19.env|env|compiler::mirgen::MacroFileEnvGuard::new|set_var", "macro expansion publishes the current source file through the process environment (MIMIUM_CURRENT_MACRO_FILE), which mimium-symphonia reads to resolve relative sample paths: with two threads compiling /a/x.mmm and /b/y.mmm, T1 sets /a/x.mmm, T2 sets /b/y.mmm, T1's Sampler macro resolves its path against /b")
